@@ -1,1 +1,115 @@
-//! Harness contracts for C10.
+//! Harness NFT contracts for C10 / C11: thin twins of the three example wirings
+//! (`examples/nft-sequential-minting`, `nft-enumerable`, `nft-consecutive`) that add the
+//! explicit-id mint entry points the examples do not expose.  They only forward to the
+//! library (DESIGN Appendix A); every mint entry point requires the admin's authorization,
+//! exactly like the examples' `owner.require_auth()`.
+//!
+//! Constructor shape is the examples' one: `(base_uri, name, symbol, admin)`.
+
+pub mod nft_base_x {
+    use soroban_sdk::{contract, contractimpl, symbol_short, Address, Env, String, Symbol};
+    use stellar_tokens::non_fungible::{burnable::NonFungibleBurnable, Base, NonFungibleToken};
+    const ADMIN: Symbol = symbol_short!("ADMIN");
+
+    #[contract]
+    pub struct NftBaseX;
+
+    #[contractimpl]
+    impl NftBaseX {
+        pub fn __constructor(e: &Env, uri: String, name: String, symbol: String, admin: Address) {
+            e.storage().instance().set(&ADMIN, &admin);
+            Base::set_metadata(e, uri, name, symbol);
+        }
+        /// sequential mint (low id range)
+        pub fn mint(e: &Env, to: Address) -> u32 {
+            let admin: Address = e.storage().instance().get(&ADMIN).unwrap();
+            admin.require_auth();
+            Base::sequential_mint(e, &to)
+        }
+        /// explicit-id mint; uniqueness of `token_id` is the caller's duty (see `Base::mint` docs)
+        pub fn mint_id(e: &Env, to: Address, token_id: u32) {
+            let admin: Address = e.storage().instance().get(&ADMIN).unwrap();
+            admin.require_auth();
+            Base::mint(e, &to, token_id);
+        }
+    }
+    #[contractimpl(contracttrait)]
+    impl NonFungibleToken for NftBaseX {
+        type ContractType = Base;
+    }
+    #[contractimpl(contracttrait)]
+    impl NonFungibleBurnable for NftBaseX {}
+}
+
+pub mod nft_enum_x {
+    use soroban_sdk::{contract, contractimpl, symbol_short, Address, Env, String, Symbol};
+    use stellar_tokens::non_fungible::{
+        burnable::NonFungibleBurnable,
+        enumerable::{Enumerable, NonFungibleEnumerable},
+        Base, NonFungibleToken,
+    };
+    const ADMIN: Symbol = symbol_short!("ADMIN");
+
+    #[contract]
+    pub struct NftEnumX;
+
+    #[contractimpl]
+    impl NftEnumX {
+        pub fn __constructor(e: &Env, uri: String, name: String, symbol: String, admin: Address) {
+            e.storage().instance().set(&ADMIN, &admin);
+            Base::set_metadata(e, uri, name, symbol);
+        }
+        pub fn mint(e: &Env, to: Address) -> u32 {
+            let admin: Address = e.storage().instance().get(&ADMIN).unwrap();
+            admin.require_auth();
+            Enumerable::sequential_mint(e, &to)
+        }
+        pub fn mint_id(e: &Env, to: Address, token_id: u32) {
+            let admin: Address = e.storage().instance().get(&ADMIN).unwrap();
+            admin.require_auth();
+            Enumerable::non_sequential_mint(e, &to, token_id);
+        }
+    }
+    #[contractimpl(contracttrait)]
+    impl NonFungibleToken for NftEnumX {
+        type ContractType = Enumerable;
+    }
+    #[contractimpl(contracttrait)]
+    impl NonFungibleEnumerable for NftEnumX {}
+    #[contractimpl(contracttrait)]
+    impl NonFungibleBurnable for NftEnumX {}
+}
+
+pub mod nft_cons_x {
+    use soroban_sdk::{contract, contractimpl, symbol_short, Address, Env, String, Symbol};
+    use stellar_tokens::non_fungible::{
+        burnable::NonFungibleBurnable,
+        consecutive::{Consecutive, NonFungibleConsecutive},
+        Base, NonFungibleToken,
+    };
+    const ADMIN: Symbol = symbol_short!("ADMIN");
+
+    #[contract]
+    pub struct NftConsX;
+
+    #[contractimpl]
+    impl NftConsX {
+        pub fn __constructor(e: &Env, uri: String, name: String, symbol: String, admin: Address) {
+            e.storage().instance().set(&ADMIN, &admin);
+            Base::set_metadata(e, uri, name, symbol);
+        }
+        pub fn batch_mint(e: &Env, to: Address, amount: u32) -> u32 {
+            let admin: Address = e.storage().instance().get(&ADMIN).unwrap();
+            admin.require_auth();
+            Consecutive::batch_mint(e, &to, amount)
+        }
+    }
+    // trait defaults (the example spells the same forwarding out by hand)
+    #[contractimpl(contracttrait)]
+    impl NonFungibleToken for NftConsX {
+        type ContractType = Consecutive;
+    }
+    impl NonFungibleConsecutive for NftConsX {}
+    #[contractimpl(contracttrait)]
+    impl NonFungibleBurnable for NftConsX {}
+}
